@@ -170,6 +170,25 @@ Section PyDec.
     end.
 End PyDec.
 
+(* the counter members are not stored in a message: their observable value is the length of
+   the arrays they count (struct_generator.substitute_len_field deletes the attribute) *)
+Fixpoint first_bound_len (i : nat) (fs : list field) (vs : list value) : option Z :=
+  match fs, vs with
+  | f :: r, v :: vr =>
+      if bound_to i f then match v with VList xs => Some (len xs) | _ => None end
+      else first_bound_len i r vr
+  | _, _ => None
+  end.
+
+Fixpoint derive_counts (all_fs : list field) (all_vs : list value) (i : nat) (vs : list value) : list value :=
+  match vs with
+  | [] => []
+  | v :: vr =>
+      (if is_sizer all_fs i
+       then match first_bound_len i all_fs all_vs with Some n => VInt n | None => v end
+       else v) :: derive_counts all_fs all_vs (S i) vr
+  end.
+
 Fixpoint py_dec (e : endian) (data : bytes) (fuel : nat) (t : ty) (pos : Z) (terminal : bool)
   {struct t} : res (value * Z) :=
   match t with
@@ -177,7 +196,7 @@ Fixpoint py_dec (e : endian) (data : bytes) (fuel : nat) (t : ty) (pos : Z) (ter
       bind (py_dec_fields e data (py_dec e data fuel) fuel (py_salign py_align fs) fs fs
                           (fst (py_scan fs)) 0 [] pos) (fun r =>
       if terminal && (snd r <? len data) then Err ProphyError     (* "not all bytes of ... read" *)
-      else Ok (VStruct (fst r), snd r - pos))
+      else Ok (VStruct (derive_counts fs (fst r) 0 (fst r)), snd r - pos))
   | TUnion arms =>
       bind (py_unpack e U32 data pos) (fun d =>
       bind (py_dec_arm e data (py_dec e data fuel) arms 0 (fst d) (pos + py_align (TUnion arms))) (fun v =>
